@@ -17,12 +17,24 @@ INVARIANT StrAlgRefinesRef
 INVARIANT StrParseRefinesRef
 INVARIANT StrAnchoredLaw
 INVARIANT StrPrefixLaw
+INVARIANT StrxAlgRefinesRef
+INVARIANT StrxRepLaw
+INVARIANT StrxCaseLaw
 INVARIANT RegAlgRefinesRef
 INVARIANT RegSerDeserInverse
 INVARIANT RegCrashOnlyPaths
 INVARIANT RegB64Law
 INVARIANT RegResolverLaw
 INVARIANT RegDecimalFinding
+INVARIANT RegMAlgRefinesRef
+INVARIANT RegMJsonTomlClean
+INVARIANT RegMJsonnetLaw
+INVARIANT PModeRefinesRef
+INVARIANT PModeJsonTomlNoCrash
+INVARIANT RegCAlgRefinesRef
+INVARIANT RegCItemsNeverCrash
+INVARIANT RegCPathLike
+INVARIANT RegCContextNeutral
 INVARIANT SecretNonInterference
 INVARIANT SecretNoLeak
 INVARIANT EmitCase
